@@ -105,6 +105,8 @@ func (d *While) Evaluation(
 		}
 
 		if isParsingExpr && nextT.IsNewLineIdentifier() {
+			// the newline ends the modified statement: leave it to the caller, as modifier if does
+			p.Unget()
 			break
 		}
 
